@@ -33,6 +33,12 @@ struct Op {
     addr: u32,
     value: u32,
     reg: u8,
+    /// addressing mode of the load / store: 0 @aa:24, 1 @aa:16, 2 @aa:8, 3 @ERn, 4 @(d:16,ERn), 5 @ERn+ / @-ERn,
+    /// 6 @(d:24,ERn) - whatever is not encodable for the address and size falls back to @aa:24
+    mode: u8,
+    /// where the executing instruction sits: 0 at the fixed scratch location, 1 immediately before its operand
+    /// (code that stores into the word right behind itself), 2 immediately behind its operand
+    place: u8,
 }
 const CODE: u32 = 0xffd000;
 /// MOV.W R0,R0: changes no register and no memory (this emulator does not implement NOP)
@@ -82,12 +88,19 @@ fn build_history(e: &mut Ent) -> Vec<Op> {
                 pc = 0xffe000 + (pc & 0xfe);
             }
             if accessible(pc as u64) && accessible(pc as u64 + 1) {
-                ops.push(Op { write: true, sz: 1, addr: pc, value: FETCHED, reg: e.below(16) as u8 });
+                // the instruction is stored by the data path: through any addressing mode, now and then by an
+                // instruction that sits right in front of the word it stores (a fetch of that instruction has just
+                // gone over the neighbourhood), and now and then after the word in front of it was fetched
+                if e.chance(1, 3) && pc >= 2 && accessible(pc as u64 - 2) && !clash2(pc - 2) {
+                    ops.push(Op { write: true, sz: 1, addr: pc - 2, value: FETCHED, reg: e.below(16) as u8, mode: e.below(7) as u8, place: 0 });
+                    ops.push(Op { write: false, sz: 3, addr: pc - 2, value: e.u32(), reg: 0, mode: 0, place: 0 });
+                }
+                ops.push(Op { write: true, sz: 1, addr: pc, value: FETCHED, reg: e.below(16) as u8, mode: e.below(7) as u8, place: e.pick(&[0u8, 0, 1, 1, 2]) });
             }
-            ops.push(Op { write: false, sz: 3, addr: pc, value: e.u32(), reg: 0 });
+            ops.push(Op { write: false, sz: 3, addr: pc, value: e.u32(), reg: 0, mode: 0, place: 0 });
             continue;
         }
-        ops.push(Op { write: e.chance(1, 2), sz, addr, value: e.u32(), reg: e.below(if sz == 2 { 8 } else { 16 }) as u8 });
+        ops.push(Op { write: e.chance(1, 2), sz, addr, value: e.u32(), reg: e.below(if sz == 2 { 8 } else { 16 }) as u8, mode: e.below(7) as u8, place: e.pick(&[0u8, 0, 0, 0, 1, 2]) });
     }
     ops
 }
@@ -144,23 +157,61 @@ fn run_history(emu: &mut Emu, ops: &[Op]) -> Result<(usize, usize, usize), Strin
         }
         let sz = [Sz::B, Sz::W, Sz::L][op.sz as usize];
         let size = sz.bytes();
-        let insn = if op.write { Insn::Store { sz, s: op.reg, ea: Ea::A24(op.addr) } } else { Insn::Load { sz, ea: Ea::A24(op.addr), d: op.reg } };
+        // addressing mode (falls back to @aa:24 where the address / size cannot be encoded)
+        let data_er = (op.reg & 7) as usize;
+        let base = ((data_er + 1) & 7) as u8;
+        let a = op.addr;
+        let d16: u16 = (op.value >> 7) as u16;
+        let d24: u32 = (op.value >> 5) & 0xff_ffff;
+        let sext24 = |d: u32| if d & 0x80_0000 != 0 { d | 0xff00_0000 } else { d };
+        let (ea, base_val): (Ea, Option<u32>) = match op.mode {
+            1 if a <= 0x7fff || a >= 0xff_8000 => (Ea::A16(a as u16), None),
+            2 if sz == Sz::B && a >= 0xff_ff00 => (Ea::A8(a as u8), None),
+            3 => (Ea::Ind(base), Some(a)),
+            4 => (Ea::D16(base, d16), Some(a.wrapping_sub(d16 as i16 as i32 as u32) & 0xff_ffff)),
+            5 if op.write => (Ea::Pre(base), Some(a.wrapping_add(size))),
+            5 => (Ea::Post(base), Some(a)),
+            6 => (Ea::D24(base, d24), Some(a.wrapping_sub(sext24(d24)) & 0xff_ffff)),
+            _ => (Ea::A24(a), None),
+        };
+        let insn = if op.write { Insn::Store { sz, s: op.reg, ea } } else { Insn::Load { sz, ea, d: op.reg } };
         let code = encode(&insn);
+        let len = code.len() as u32;
+        // where the instruction sits
+        let in_code_mem = |lo: u32| {
+            let hi = lo + len;
+            ((0xffbf20..=0xffff1f).contains(&lo) && hi <= 0xffff20 || (0x400000..=0x5fffff).contains(&lo) && hi <= 0x600000) && lo & 1 == 0
+        };
+        let at = match op.place {
+            1 if a >= len && in_code_mem((a - len) & !1) && ((a - len) & !1) + len <= a => (a - len) & !1,
+            2 if in_code_mem((a + size + 1) & !1) => (a + size + 1) & !1,
+            _ => CODE,
+        };
+        let saved: Vec<u8> = (0..len).map(|i| raw_get(&emu.cpu.bus, at + i).unwrap_or(0)).collect();
         for (i, b) in code.iter().enumerate() {
-            raw_set(&mut emu.cpu.bus, CODE + i as u32, *b);
+            emu.set_byte(at + i as u32, *b);
         }
         let mut er = [0x1111_1111u32.wrapping_mul(idx as u32 + 1); 8];
+        if let Some(bv) = base_val {
+            er[base as usize] = bv;
+        }
         put_reg(&mut er, sz, op.reg, op.value);
         emu.cpu.er = er;
-        emu.set_pc(CODE);
+        emu.set_pc(at);
         emu.set_ccr(0);
         emu.clear_write_log();
         let res = emu.step();
+        let log: Vec<u32> = emu.cpu.bus.verif_write_log.clone();
+        if at != CODE {
+            // take the instruction away again (through the write path): memory is what the history made it
+            for (i, b) in saved.iter().enumerate() {
+                emu.set_byte(at + i as u32, *b);
+            }
+        }
         let all_ok = (0..size).all(|i| accessible(op.addr as u64 + i as u64));
         if crate::refmodel::exec::REGIONS.iter().any(|&(lo, hi, _)| op.addr.abs_diff(lo) < 4 || op.addr.abs_diff(hi) < 4) {
             edge += 1;
         }
-        let log: Vec<u32> = emu.cpu.bus.verif_write_log.clone();
         if all_ok {
             match res {
                 EmuResult::Ok(_) => {}
@@ -247,14 +298,14 @@ fn run_history(emu: &mut Emu, ops: &[Op]) -> Result<(usize, usize, usize), Strin
 }
 
 fn ops_json(ops: &[Op]) -> Value {
-    json!({"kind": "history", "ops": ops.iter().map(|o| json!([o.write, o.sz, o.addr, o.value, o.reg])).collect::<Vec<_>>()})
+    json!({"kind": "history", "ops": ops.iter().map(|o| json!([o.write, o.sz, o.addr, o.value, o.reg, o.mode, o.place])).collect::<Vec<_>>()})
 }
 fn ops_from_json(v: &Value) -> Option<Vec<Op>> {
     Some(
         v.get("ops")?
             .as_array()?
             .iter()
-            .filter_map(|o| Some(Op { write: o.get(0)?.as_bool()?, sz: o.get(1)?.as_u64()? as u8, addr: o.get(2)?.as_u64()? as u32, value: o.get(3)?.as_u64()? as u32, reg: o.get(4)?.as_u64()? as u8 }))
+            .filter_map(|o| Some(Op { write: o.get(0)?.as_bool()?, sz: o.get(1)?.as_u64()? as u8, addr: o.get(2)?.as_u64()? as u32, value: o.get(3)?.as_u64()? as u32, reg: o.get(4)?.as_u64()? as u8, mode: o.get(5).and_then(|x| x.as_u64()).unwrap_or(0) as u8, place: o.get(6).and_then(|x| x.as_u64()).unwrap_or(0) as u8 }))
             .collect(),
     )
 }
